@@ -21,6 +21,7 @@ import (
 	"fmt"
 	"go/types"
 	"io"
+	"math/big"
 	"strings"
 	"unsafe"
 
@@ -313,27 +314,62 @@ func (i *interpreter) allBytes(a array) bool {
 func (i *interpreter) concatBytes(bs []value) *Term {
 	st := i.p.st()
 	var t *Term
+	// runs of concrete bytes become one constant
+	var run []byte
+	flush := func() {
+		if len(run) == 0 {
+			return
+		}
+		c := st.BVConstBig(new(big.Int).SetBytes(run), 8*len(run))
+		run = run[:0]
+		if t == nil {
+			t = c
+		} else {
+			t = st.Concat(t, c)
+		}
+	}
 	for _, b := range bs {
+		if c, ok := b.(uint8); ok {
+			run = append(run, c)
+			continue
+		}
 		bt := st.lift(b)
 		if bt.sort.W != 8 {
 			panic(engineError{"concatBytes: non-byte element"})
 		}
+		if bt.op == "const" {
+			run = append(run, byte(bt.val.Uint64()))
+			continue
+		}
+		flush()
 		if t == nil {
 			t = bt
 		} else {
 			t = st.Concat(t, bt)
 		}
 	}
+	flush()
 	return t
 }
 
 // splitBytes returns the n bytes of a wide term, most significant first.
 func (i *interpreter) splitBytes(t *Term, n int) []value {
 	st := i.p.st()
+	if st.splitMemo == nil {
+		st.splitMemo = map[*Term][]*Term{}
+	}
+	ts, ok := st.splitMemo[t]
+	if !ok || len(ts) != n {
+		ts = make([]*Term, n)
+		for k := 0; k < n; k++ {
+			hi := (n-k)*8 - 1
+			ts[k] = st.Extract(t, hi, hi-7)
+		}
+		st.splitMemo[t] = ts
+	}
 	out := make([]value, n)
 	for k := 0; k < n; k++ {
-		hi := (n-k)*8 - 1
-		out[k] = termToValue(st.Extract(t, hi, hi-7), types.Typ[types.Uint8])
+		out[k] = termToValue(ts[k], types.Typ[types.Uint8])
 	}
 	return out
 }
